@@ -446,7 +446,7 @@ func c05Try(dir string, tag string, doc *OMap, mem *specs.Spec, enc string, want
 func cloneSpecKeepNil(s *specs.Spec) *specs.Spec { return cloneSpec(s) }
 
 func checkC05(c *Ctx) {
-	c.Rule = "by-construction oracle: (a) well-formed Specs from G-SPEC (all optional fields, boundary-valid values: one-letter vendor/class/device names, 63-byte annotation name parts, 4095-byte closID) must be accepted by ReadSpec(.json/.yaml), ParseSpec, Cache.Refresh and Cache.WriteSpec; (b) every single-defect variant from the catalogue (kind x level spec/dev0/dev1/dev2 x first/last list element x variant) in JSON and YAML must be rejected by all of them; distinct_nontrivial = distinct (defect kind, level, element, variant, encoding) cells plus distinct accepted Specs"
+	c.Rule = "by-construction oracle: (a) well-formed Specs from G-SPEC (all optional fields, boundary-valid values: one-letter vendor/class/device names, 63-byte annotation name parts, 4095-byte closID) must be accepted by ReadSpec(.json/.yaml), ParseSpec, Cache.Refresh and Cache.WriteSpec; (b) every single-defect variant from the catalogue (kind x level spec/dev0/dev1/dev2 x first/last list element x variant) in JSON and YAML must be rejected by all of them, also with an accepting external Spec validator installed; distinct_nontrivial = distinct (defect kind, level, element, variant, encoding) cells plus distinct accepted Specs"
 	c.Assume("the rule list is the one enumerated in the property statement; SPEC.md rules it does not list (63-character names, absolute hook paths, positive timeouts, duplicate keys, scalar type coercions) are not demanded", "a defect is 'rejected' iff every entry point returns an error (for the cache: an error entry and no devices of that file)")
 	dir := filepath.Join(c.Scratch, "c05")
 	must(os.MkdirAll(dir, 0o755))
@@ -487,7 +487,7 @@ func checkC05(c *Ctx) {
 		}
 	})
 	// (b) single defects
-	c.RunCases("base", nbase, 1, func(cs *Case) {
+	runBase := func(cs *Case) {
 		base := c05Base(cs.R)
 		defects := c05Defects(base)
 		names := make([]string, len(defects))
@@ -516,7 +516,87 @@ func checkC05(c *Ctx) {
 			}
 		})
 		c.Sample(2, map[string]any{"base_spec": base, "single_defect_variants": len(defects), "example_defect": map[string]string{"kind": defects[len(defects)/2].kind, "level": defects[len(defects)/2].level, "variant": defects[len(defects)/2].variant}})
+	}
+	c.RunCases("base", nbase, 1, runBase)
+	// (c) the same catalogue with an accepting external Spec validator installed (the
+	// cdi tool always installs one): an external validator adds checks, it never
+	// stands in for the library's own
+	cdi.SetSpecValidator(acceptAllValidator{})
+	c.RunCases("validator-installed", c.pick(1, 10), 1, func(cs *Case) {
+		c.Count("bases_with_external_validator_installed", 1)
+		runBase(cs)
 	})
+	cdi.SetSpecValidator(nil)
+	c.Floor("bases_with_external_validator_installed", 1)
+	// (d) size is no excuse: the same verdicts for documents of more than 1, 4, ... MiB
+	// whose single defect sits in the very last device
+	sizes := []int{1300 << 10, 4500 << 10}
+	if !c.Quick() {
+		sizes = append(sizes, 9<<20, 17<<20, 33<<20)
+	}
+	largeDefects := []string{"none", "duplicate-name", "unknown-field", "env-without-equals", "empty-edits", "bad-version-feature"}
+	var lnames []string
+	for si := range sizes {
+		for _, enc := range []string{"json", "yaml"} {
+			for di := range largeDefects {
+				lnames = append(lnames, fmt.Sprintf("large:%d.%s.%d", si, enc, di))
+			}
+		}
+	}
+	c.RunNamed(lnames, 4, func(cs *Case) {
+		var si, di int
+		var enc string
+		parts := strings.Split(strings.TrimPrefix(cs.Name, "large:"), ".")
+		fmt.Sscanf(parts[0], "%d", &si)
+		enc = parts[1]
+		fmt.Sscanf(parts[2], "%d", &di)
+		base := c05Base(cs.R)
+		base.Version = "0.6.0" // no 0.7.0 feature may appear ...
+		base.ContainerEdits.IntelRdt, base.ContainerEdits.AdditionalGIDs = nil, nil
+		for i := range base.Devices {
+			base.Devices[i].ContainerEdits.IntelRdt, base.Devices[i].ContainerEdits.AdditionalGIDs = nil, nil
+		}
+		d := specDoc(base)
+		v, _ := d.Get("devices")
+		l := v.([]any)
+		filler := strings.Repeat("x", 2000)
+		for n := 0; n*2060 < sizes[si]; n++ {
+			l = append(l, om("name", fmt.Sprintf("fill%d", n), "containerEdits", om("env", []any{"F=" + filler})))
+		}
+		last := om("name", "last", "containerEdits", om("env", []any{"LAST=1"}))
+		switch largeDefects[di] {
+		case "duplicate-name":
+			last.Set("name", "fill0")
+		case "unknown-field":
+			last.Add("bogus", 1)
+		case "env-without-equals":
+			last.Set("containerEdits", om("env", []any{"NOEQUALS"}))
+		case "empty-edits":
+			last.Set("containerEdits", &OMap{})
+		case "bad-version-feature": // ... except here: a 0.7.0 feature at the very end of a 0.6.0 document
+			last.Set("containerEdits", om("additionalGids", []any{5}))
+		}
+		l = append(l, last)
+		d.Set("devices", l)
+		bad := c05Try(dir, sanitize(cs.Name), d, nil, enc, largeDefects[di] == "none", "")
+		c.Count("large_documents", 1)
+		c.Count(fmt.Sprintf("large_documents_over_%d_KiB", sizes[si]>>10), 1)
+		c.Distinct(fmt.Sprintf("large|%d|%s|%s", si, enc, largeDefects[di]))
+		if len(bad) > 0 {
+			var all []string
+			for _, b := range bad {
+				all = append(all, b[0]+": "+b[1])
+			}
+			cls := "defect-" + largeDefects[di]
+			if largeDefects[di] == "none" {
+				cls = "valid-rejected"
+			}
+			cs.Violation(cls, map[string]string{"size": fmt.Sprint(sizes[si]), "encoding": enc, "entry": bad[0][0]},
+				fmt.Sprintf("document of more than %d KiB (%s) with %s in its last device: %s", sizes[si]>>10, enc, largeDefects[di], strings.Join(all, "; ")),
+				map[string]any{"discrepancies": all, "size": sizes[si], "defect": largeDefects[di], "document_tail": docText(d, enc)})
+		}
+	})
+	c.Floor("large_documents", 20)
 	c.Floor("valid_documents", 100)
 	c.Floor("defective_documents", 1000)
 }
